@@ -60,6 +60,7 @@ BODY_ATOMS = ["{{t}}", "{{{1}}}", "{{{1|d}}}", "[[Link]]", "[[A|b]]", "<b>q</b>"
               "&lt;nowiki&gt;", "&lt;/nowiki&gt;", "&#60;nowiki&#62;''e''&#60;/nowiki&#62;", "&lt;nowiki&gt;''x''&lt;/nowiki&gt;",
               "&lt;pre&gt;", "&lt;/pre&gt;", "&lt;!-- c --&gt;", "&amp;lt;nowiki&amp;gt;",
               # ampersand words that are not entities (no semicolon)
+              "&#x41 ;", "&# 65;", "&#6_5;", "&#+65;", "&#x 41;", "&#65 ;",
               "&copy", "title=X&copy=1&reg=2", "a &lt b", "&amp&amp", "&para", "&notit;", "&copy;", "&#65", "&#x41 "]
 
 
@@ -262,8 +263,9 @@ def check_triple(R, tag, body, ctx):
     if res:
         key, what = res
         # minimise the body: drop atoms while the same key persists
-        small = minimise(tag, body, ctx, key)
-        key2 = refine_key(tag, small, key)
+        # the mechanism key is fixed by the body that failed; minimisation must stay within that mechanism
+        key2 = refine_key(tag, body, key)
+        small = minimise(tag, body, ctx, key, key2)
         R.violation(key2, what, dict(case, body=small, text=CONTEXTS[ctx] % ("%s <%s>%s</%s> %s" % (S1, tag, small, tag, S2))))
 
 
@@ -280,7 +282,7 @@ def refine_key(tag, small, key):
         return key2
 
 
-def minimise(tag, body, ctx, key):
+def minimise(tag, body, ctx, key, key2=None):
     from ..gen.shrink import shrink
 
     def fails(b):
@@ -291,7 +293,7 @@ def minimise(tag, body, ctx, key):
             r = judge(tag, b, leaves(parse(t)))
         except Exception:
             return False
-        return bool(r) and r[0] == key
+        return bool(r) and r[0] == key and (key2 is None or refine_key(tag, b, r[0]) == key2)
 
     return shrink(body, fails, max_calls=80)
 
